@@ -20,7 +20,7 @@ TRUSTED = ["Enum call semantics (member -> itself, string -> lookup by value, el
            "query equivalence FraudScores vs Scores(pos=genuines, neg=frauds, ...) is an implementation-vs-implementation "
            "bitwise comparison (oracle); in Coq it follows from the constructed object being that Scores object and from "
            "the translator's check that the class defines nothing but __init__, genuines, frauds, from_labels"]
-ASSUMPTIONS = ["finite scores (NaN passes both range tests: outside the property)",
+ASSUMPTIONS = ["finite scores (a NaN alone passes both range tests: outside the property; a NaN NEXT TO an out-of-range score must still be rejected and is checked)",
                "queries compared: cm, the rate methods and aliases, threshold_at_* (three methods), threshold_at_metric, "
                "eer, auc (full and partial), swap().cm, the count/ratio properties"]
 
@@ -182,6 +182,22 @@ def run_impl(case):
         fs = None
         out["raised"] = "ValueError"
         out["msg"] = str(ex)[:120]
+    # a class that holds a missing value AND a score outside [0,1]: the out-of-range score is still there
+    nan_mix = []
+    base_g = np.clip(g, 0.0, 1.0)
+    base_f = np.clip(f, 0.0, 1.0)
+    for tag, gg, ff in (("genuines+[1.5, nan]", np.concatenate([base_g, [1.5, np.nan]]), base_f),
+                        ("frauds+[nan, 3.0, nan]", base_g, np.concatenate([[np.nan, 3.0, np.nan], base_f])),
+                        ("genuines+[-0.25, nan]", np.concatenate([[-0.25], base_g, [np.nan]]), base_f)):
+        try:
+            import warnings as _w
+            with _w.catch_warnings():
+                _w.simplefilter("ignore")
+                FraudScores(genuines=gg, frauds=ff, score_class=sc_arg)
+            nan_mix.append([tag, "accepted"])
+        except ValueError:
+            nan_mix.append([tag, "ValueError"])
+    out["nan_mix"] = nan_mix
     if fs is not None:
         out["is_scores"] = isinstance(fs, Scores)
         out["pos"] = [enc(float(v)) for v in fs.pos]
@@ -272,6 +288,24 @@ def run_impl(case):
             except ValueError:
                 bool_out.append([bool(gl_b), "ValueError"])
     out["from_labels_bool"] = bool_out
+    # labels stored as enum members (DocLabel itself, or a user's plain Enum), genuine_label one of the members
+    enum_out = []
+    if len(scores_all) and out.get("raised") is None:
+        import enum as _enum
+
+        class Verdict(_enum.Enum):
+            ok = "ok"
+            forged = "forged"
+
+        for En, gm, om in ((DocLabel, DocLabel("genuine"), DocLabel("fraud")), (Verdict, Verdict.ok, Verdict.forged),
+                           (Verdict, Verdict.forged, Verdict.ok)):
+            lab_e = np.array([gm if v == case["gl"] else om for v in labels], dtype=object)
+            try:
+                fe = FraudScores.from_labels(lab_e, scores_all, genuine_label=gm)
+                enum_out.append([f"{En.__name__}.{gm.name}", [enc(float(v)) for v in fe.pos], [enc(float(v)) for v in fe.neg]])
+            except Exception as ex:
+                enum_out.append([f"{En.__name__}.{gm.name}", type(ex).__name__])
+    out["from_labels_enum"] = enum_out
 
     def call(fn, arg):
         try:
@@ -311,6 +345,10 @@ def oracle(case, res):
         fails.append(("C19/range/accepted", f"constructed although scores {[float(v) for v in bad[:3]]} lie outside [0,1]"))
     if not bad and r["raised"]:
         fails.append(("C19/range/rejected", f"raised {r['raised']} ({r.get('msg')}) although all scores lie in [0,1]"))
+    for tag, what in r.get("nan_mix") or []:
+        if what != "ValueError":
+            fails.append(("C19/range/accepted-with-nan", f"constructed although the scores ({tag}) include a value outside [0,1] next to a NaN"))
+            break
     want_sc = {"genuine": "pos", "fraud": "neg"}[case["sc"]]
     if r["raised"] is None:
         if not r["is_scores"]:
@@ -342,6 +380,12 @@ def oracle(case, res):
             fails.append(("C19/from_labels/split", f"from_labels(genuine_label={case['gl']}) did not split by the genuine label"))
         if fl_["score_class"] != want_sc or fl_["equal_class"] != "pos" or fl_["easy"] != [case["eg"], case["ef"]]:
             fails.append(("C19/from_labels/config", "from_labels lost score_class / easy counts"))
+    for item in r.get("from_labels_enum") or []:
+        if len(item) == 2:
+            fails.append(("C19/from_labels/enum-members", f"from_labels with labels stored as enum members and genuine_label={item[0]} raised {item[1]}"))
+        elif [F(v) for v in item[1]] != sorted(g) or [F(v) for v in item[2]] != sorted(f):
+            fails.append(("C19/from_labels/enum-members", f"from_labels with labels stored as enum members and genuine_label={item[0]} did not "
+                                                          f"take the samples carrying that member as genuines ({len(item[1])} genuines, want {len(g)})"))
     for item in r.get("from_labels_bool") or []:
         if item[1] == "ValueError":
             if not bad:
